@@ -454,6 +454,15 @@ def sex_scenario(seed, index, cli=False):
     genome = rng.choice(["none", "none", "none", "grch37", "grch38"])
     sdm = rng.choice([10, 300, rng.randint(10, 300), rng.randint(10, 300), rng.randint(150, 300)])
     nx = rng.choice([40, 400, rng.randint(40, 400), rng.randint(40, 400), rng.randint(40, 80)])
+    # Y bins: from a single one (e.g. one SRY target) to 60
+    ny = rng.choice([1, 2, rng.randint(1, 4), rng.randint(5, 60), rng.randint(5, 60)])
+    if index % 4 == 3:
+        # every fourth scenario is the hard corner of the quantifier: a male sample whose Y is 1 or 2 bins, high noise, few
+        # X bins (weak X evidence, Y evidence nearly absent)
+        female, withy = False, True
+        ny = rng.choice([1, 1, 2])
+        sdm = rng.choice([300, rng.randint(200, 300)])
+        nx = rng.choice([40, rng.randint(40, 100)])
     sd_units = sdm * U / 1000.0
     bound = (3 * sdm * U) // 1000
     bn, bs, s, e, k = [], [], [], [], []
@@ -474,7 +483,6 @@ def sex_scenario(seed, index, cli=False):
         add(-1, "X", rng.randint(1, 12), 0, start=lo + 1000)          # PAR-X bins: diploid in either sex -> level 0
     add(-1, "X", nx, (0 if female else -1) + (1 if hapx else 0))
     if withy:
-        ny = rng.randint(5, 60)
         if female:
             ylev = rng.choice([-4, -5, -6, -8, -12, -19])             # "deep negative (below -3)"
             add(-1, "Y", ny, ylev)
@@ -683,6 +691,11 @@ def run(ctx: Ctx):
                 ctx.bump("sex_nx_at_bound")
             if rec["sdm"] in (10, 300):
                 ctx.bump("sex_sd_at_bound")
+            ny = sum(1 for nm in rec["bs"] if nm == "Y")
+            if ny in (1, 2):
+                ctx.bump("sex_one_or_two_y_bins")
+                if not rec["female"]:
+                    ctx.bump("sex_male_one_or_two_y_bins")
     for rec in (mc_records[0], rnd[0], grid[0], sex[0]):
         ctx.sample(rec)
     # one TLC run per batch; batch sizes by record size (enumerated tables are tiny, scenarios have ~900 rows)
